@@ -120,12 +120,13 @@ def elem_ty(f: Field):
         return f"u{w}"
     if k == 'i':
         return f"i{w}"
+    q = "self::" if f.qualified else ""
     if k == 'e':
-        return f.enum.name
+        return q + f.enum.name
     if k == 'o':
-        return f"Option<{f.enum.name}>"
+        return f"Option<{q}{f.enum.name}>"
     if k == 'c':
-        return inner_name(f.inner_n)
+        return q + inner_name(f.inner_n)
     raise ValueError(k)
 
 
@@ -151,7 +152,11 @@ def setter_elem_ty(f: Field):
 
 def attr_text(f: Field, idx_for_spelling=0):
     form = f.form
-    if len(f.ranges) == 1:
+    if len(f.ranges) == 1 and form == 'list1':
+        # a range list with a single member
+        lo, l = f.ranges[0]
+        a = f"bits([{lo}]" if (l == 1 and idx_for_spelling % 2 == 0) else f"bits([{lo}..={lo + l - 1}]"
+    elif len(f.ranges) == 1:
         lo, l = f.ranges[0]
         if form == 'auto':
             if f.kind == 'b':
